@@ -973,3 +973,63 @@ Section Theorems.
     - apply invC_run; auto. now apply up_stays_down.
   Qed.
 End Theorems.
+
+(* ------------------------------------------------------------------ *)
+(* the oracle's order check is implied by the theorem: on model runs it never raises an alarm *)
+
+Lemma subseqb_complete {A} (eqb : A -> A -> bool) :
+  (forall x y, eqb x y = true <-> x = y) ->
+  forall l l', subseq l l' -> subseqb eqb l l' = true.
+Proof.
+  intros Heq l l' H. induction H as [l|x l l' _ IH|x l l' Hs IH].
+  - destruct l; reflexivity.
+  - simpl. replace (eqb x x) with true by (symmetry; now apply Heq). exact IH.
+  - destruct l as [|y t]; [reflexivity|]. simpl. destruct (eqb y x) eqn:E; [|exact IH].
+    apply Heq in E. subst y.
+    (* greedy matching: a match found later can be found now *)
+    clear IH. revert Hs. generalize l' as l2. clear l'.
+    intros l2 Hs. 
+    assert (G : forall (a : list A) b, subseq a b -> forall z t', a = z :: t' -> subseq t' b).
+    { clear. intros a b H. induction H as [l|x l l' H IH|x l l' H IH]; intros z t' E.
+      - discriminate.
+      - inversion E; subst. constructor. exact H.
+      - constructor. eapply IH; eauto. }
+    pose proof (G _ _ Hs x t eq_refl) as Ht.
+    clear G Hs. revert Ht. revert t. induction l2 as [|w r IHr]; intros t Ht.
+    + inversion Ht; subst. reflexivity.
+    + destruct t as [|u t2]; [reflexivity|]. simpl. destruct (eqb u w) eqn:E2.
+      * apply Heq in E2. subst. apply IHr. inversion Ht; subst; [assumption|].
+        clear -H1. 
+        assert (G : forall (a : list A) b, subseq a b -> forall z t', a = z :: t' -> subseq t' b).
+        { clear. intros a b H. induction H as [l|x l l' H IH|x l l' H IH]; intros z t' E.
+          - discriminate.
+          - inversion E; subst. constructor. exact H.
+          - constructor. eapply IH; eauto. }
+        eapply G; eauto.
+      * apply IHr. inversion Ht; subst; [|assumption]. rewrite (proj2 (Heq w w) eq_refl) in E2. discriminate.
+Qed.
+
+Definition msg_eqb (a b : msg) : bool :=
+  Bool.eqb (m_call a) (m_call b) && N.eqb (m_v a) (m_v b) && list_eqb N.eqb (m_a a) (m_a b).
+
+Lemma list_eqb_N l l' : list_eqb N.eqb l l' = true <-> l = l'.
+Proof.
+  revert l'. induction l as [|x t IH]; intros [|y t']; simpl; split; try congruence; try discriminate.
+  - intros H. apply andb_true_iff in H as [H1 H2]. apply N.eqb_eq in H1. apply IH in H2. congruence.
+  - intros H. inversion H; subst. rewrite N.eqb_refl. simpl. now apply IH.
+Qed.
+
+Lemma msg_eqb_spec a b : msg_eqb a b = true <-> a = b.
+Proof.
+  destruct a as [c v a], b as [c' v' a']. unfold msg_eqb. simpl. split.
+  - intros H. apply andb_true_iff in H as [H H3]. apply andb_true_iff in H as [H1 H2].
+    apply Bool.eqb_prop in H1. apply N.eqb_eq in H2. apply list_eqb_N in H3. congruence.
+  - intros H. inversion H; subst. rewrite Bool.eqb_reflx, N.eqb_refl. simpl. now apply list_eqb_N.
+Qed.
+
+Theorem oracle_fifo_sound : forall resp nf nb ls pid (f : msg -> bool),
+  let st := run resp (init nf nb) ls in
+  subseqb msg_eqb (filter f (dlv st pid)) (filter f (sent st pid)) = true.
+Proof.
+  intros. apply subseqb_complete; [apply msg_eqb_spec|]. apply net_fifo_per_sender.
+Qed.
